@@ -985,6 +985,9 @@ class SVG:
             if _is_group(context.element):
                 _try_remove_group(context.element)
 
+        # ... and gradients whose only users were dumped
+        self._remove_orphaned_gradients()
+
         return self
 
     def _dissolve_needless_groups(self) -> bool:
